@@ -21,8 +21,9 @@ def model_is_demanded(r):
 def extra(rng, mode):
     r = rng.random()
     if r < 0.3:
-        inner = schema.value(rng, "der")[0]
-        return "W der %s" % inner if mode != "cer" else "P u4 o 00"
+        im = rng.choice(["ber", "cer", "der"])
+        inner = schema.value(rng, im)[0]
+        return "W %s %s" % (im, inner) if mode != "cer" else "P u4 o 00"
     if r < 0.6:
         body = b"".join(rand_tree(rng, mode).encode() for _ in range(rng.randrange(0, 3)))
         m2 = mode if rng.random() < 0.7 or mode != "ber" else rng.choice(["ber", "cer", "der"])
@@ -45,6 +46,13 @@ def gen(tier, rng):
         if rng.random() < 0.3:
             e = "C seq u16 S tuple 2 %s %s" % (e, extra(rng, mode))
         out.append("enc %s %s" % (mode, e))
+    # wrapped values: the inner mode is the encoder's own, whatever the outer mode is
+    for om in ("ber", "der"):
+        for im in ("ber", "cer", "der"):
+            for _ in range(150):
+                inner = schema.value(rng, im)[0]
+                out.append("enc %s W %s C seq u16 S tuple 2 %s P u5 n" % (om, im, inner))
+                out.append("enc %s C seq u16 S tuple 2 W %s %s P u1 b 1" % (om, im, inner))
     # length boundaries at every depth
     for mode in ("ber", "cer", "der"):
         for n in (0, 1, 125, 126, 127, 128, 129, 253, 254, 255, 256, 257, 65531, 65532, 65533, 65535, 65536, 65537):
